@@ -323,6 +323,52 @@ Definition caches (n : nat) (sched : list (nat * (Z * Z))) : list cache :=
   map (fun t => best (map snd (filter (fun a => Nat.eqb (fst a) t) sched))) (seq 0 n).
 Definition fit_select (n : nat) (sched : list (nat * (Z * Z))) : cache := min_reduce (caches n sched).
 
+(* F'. the SAME selection with the comparisons the source really uses (translated on every run): the per-thread "better than
+   the best kept so far" test of every weak-learner fit cache and the comparison of min_reduce.  C18_Proofs shows these are the
+   strict `<` of cache_update / cache_less above, i.e. ONE strict order inside a worker and across workers: that is what makes
+   the selection a minimum and hence independent of the assignment of features to workers. *)
+Inductive wkind := WAffine | WStump | WHingeNeg | WHingePos | WTable (i : nat).
+Definition better_src (k : wkind) (score best_ : Z) : bool :=
+  match k with
+  | WAffine => src_c18_better_affine score best_
+  | WStump => src_c18_better_stump score best_
+  | WHingeNeg => src_c18_better_hinge_neg score best_
+  | WHingePos => src_c18_better_hinge_pos score best_
+  | WTable 0 => src_c18_better_table_0 score best_
+  | WTable 1 => src_c18_better_table_1 score best_
+  | WTable _ => src_c18_better_table_2 score best_
+  end.
+Definition cache_update_src (k : wkind) (c : cache) (sf : Z * Z) : cache :=
+  match c with
+  | None => Some sf
+  | Some (s, _) => if better_src k (fst sf) s then Some sf else c
+  end.
+Definition best_src (k : wkind) (l : list (Z * Z)) : cache := fold_left (cache_update_src k) l None.
+Definition cache_less_src (a b : cache) : bool :=
+  match a, b with
+  | Some (s, _), Some (s', _) => src_c18_reduce_less s s'
+  | Some _, None => true
+  | None, _ => false
+  end.
+Fixpoint min_reduce_go_src (cur : cache) (rest : list cache) : cache :=
+  match rest with
+  | [] => cur
+  | c :: r => if cache_less_src c cur then min_reduce_go_src c r else min_reduce_go_src cur r
+  end.
+Definition min_reduce_src (cs : list cache) : cache := match cs with [] => None | c :: r => min_reduce_go_src c r end.
+Definition caches_src (k : wkind) (n : nat) (sched : list (nat * (Z * Z))) : list cache :=
+  map (fun t => best_src k (map snd (filter (fun a => Nat.eqb (fst a) t) sched))) (seq 0 n).
+Definition fit_select_src (k : wkind) (n : nat) (sched : list (nat * (Z * Z))) : cache := min_reduce_src (caches_src k n sched).
+
+(* counter-model: a worker that only accepts improvements larger than eps, combined with the strict min_reduce *)
+Definition cache_update_eps (eps : Z) (c : cache) (sf : Z * Z) : cache :=
+  match c with
+  | None => Some sf
+  | Some (s, _) => if fst sf <? s - eps then Some sf else c
+  end.
+Definition fit_select_eps (eps : Z) (n : nat) (sched : list (nat * (Z * Z))) : cache :=
+  min_reduce (map (fun t => fold_left (cache_update_eps eps) (map snd (filter (fun a => Nat.eqb (fst a) t) sched)) None) (seq 0 n)).
+
 (* ================================================================================================================ *)
 (* G. executable checks of what the instrumented implementation was observed to do (used by ocaml/c18_driver.ml)     *)
 (* ================================================================================================================ *)
